@@ -137,6 +137,11 @@ theorem Stable.readN (n : Nat) : Stable (Sbdf.readN n) := by
 theorem Stable.seek (dl : Int) : Stable (Sbdf.seek dl) := by
   constructor; intro d L pos a pos' h; simpa [Sbdf.seek] using h
 
+theorem Stable.skipBytes (c : Cfg) (dl : Int) : Stable (Sbdf.skipBytes c dl) := by
+  unfold Sbdf.skipBytes Sbdf.discard; split
+  · exact Stable.bind (Stable.readN _) (fun _ => Stable.pure _)
+  · exact Stable.seek _
+
 theorem Stable.alloc (c : Cfg) (n : Int) : Stable (Sbdf.alloc c n) := by
   unfold Sbdf.alloc; split
   · exact Stable.fail _
